@@ -81,6 +81,9 @@ def run_shard(shard, ctx, tier):
                 guarded_check(mod, {'boxes': lst, 'skew': 0}, ctx)
                 if n == 2 and lst[0] % 5 == 0:
                     guarded_check(mod, {'boxes': lst, 'skew': 0, 'gray': 1}, ctx)      # single-channel page image
+                if n == 2 and lst[0] % 5 == 1:
+                    for sk in range(3):                                                # integer-pixel coordinates held in int32 arrays
+                        guarded_check(mod, {'boxes': lst, 'skew': sk, 'ints': 1}, ctx)
                 if n == 2:
                     for sk in (1, 2):
                         guarded_check(mod, {'boxes': lst, 'skew': sk}, ctx)
@@ -101,7 +104,7 @@ def run_shard(shard, ctx, tier):
 LINE_COUNTS = [[2, 2, 2, 2, 2], [1, 0, 1, 0, 1], [0, 3, 1, 0, 2], [0, 0, 0, 0, 0]]      # text lines per region, by line variant
 
 
-def build_page(polygons, skew_deg, lv=0):
+def build_page(polygons, skew_deg, lv=0, ints=False):
     from pero_ocr.core.layout import PageLayout, RegionLayout, TextLine
     page = PageLayout(id='p', page_size=(100, 1000))
     for k, poly in enumerate(polygons):
@@ -115,6 +118,12 @@ def build_page(polygons, skew_deg, lv=0):
                                       polygon=np.asarray([[x0, y - 2], [max(x1, x0 + 1.0), y - 2 + dy], [max(x1, x0 + 1.0), y + 2 + dy], [x0, y + 2]]),
                                       heights=[2, 1], transcription=f'line {k}.{j}'))
         page.regions.append(reg)
+    if ints:
+        for reg in page.regions:
+            reg.polygon = np.round(reg.polygon).astype(np.int32)
+            for l in reg.lines:
+                l.baseline = np.round(l.baseline).astype(np.int32)
+                l.polygon = np.round(l.polygon).astype(np.int32)
     return page
 
 
@@ -172,14 +181,16 @@ def check_case(case, ctx):
         polygons = [POLYS[i] for i in case['polys']]
         what = f'polygons {polygons}'
     skew = SKEWS[case['skew']]
-    ctx.state((what, skew, case.get('lv', 0), case.get('gray', 0)))
+    ctx.state((what, skew, case.get('lv', 0), case.get('gray', 0), case.get('ints', 0)))
+    if case.get('ints'):
+        ctx.tag('integer-coordinate-arrays')
     configs = [('smart', p) for p in INTERSECT] + [('naive', d) for d in DENOMS]
     if 'cfg' in case:
         configs = [tuple(case['cfg'])]
     for name, param in configs:
         sub = dict(case, cfg=[name, param])
         K = f'{ID}/{name}'
-        page = build_page(polygons, skew, case.get('lv', 0))
+        page = build_page(polygons, skew, case.get('lv', 0), ints=bool(case.get('ints')))
         before = snapshot(page)
         desc = f'{name} sorter (parameter {param}), {what}, line skew {skew} deg, lines per region {LINE_COUNTS[case.get("lv", 0)][:len(polygons)]}'
         try:
@@ -249,5 +260,5 @@ def describe(tier):
         'bounds': BOUNDS[tier], 'alphabets': {'boxes': len(BOXES), 'overlapping': OVERLAPPING, 'polygons': POLYS, 'skews': SKEWS,
                                                'FakeIntersectionParameter': INTERSECT, 'ImageWidthDenominator': DENOMS},
         'assumptions': ['geometry compared within 1e-6 (the smart sorter rotates by the de-skew angle and back)', 'region ids are unique'],
-        'min_nontrivial': 100, 'required_tags': ['order-actually-changed', 'de-skew-rotation-applied', 'mutually-overlapping-lists'],
+        'min_nontrivial': 100, 'required_tags': ['integer-coordinate-arrays', 'order-actually-changed', 'de-skew-rotation-applied', 'mutually-overlapping-lists'],
     }
